@@ -21,6 +21,9 @@ CAT = [
  ("prepend", "₀p", "inc", "[10] + list(V)"),
  ("append_merge", "₀J", "inc", "list(V)"),
  ("slice_from_3", "3ȯ", "inc", "list(V[3:])"),
+ ("slice_from_0", "0ȯ", "inc", "list(V)"),
+ ("slice_from_1", "1ȯ", "inc", "list(V[1:])"),
+ ("slice_from_0_then_map", "0ȯƛ›;", "inc", "[v + 1 for v in V]"),
  ("vector_add", "₀+", "inc", "[v + 10 for v in V]"),
  ("vector_mul", "₀*", "inc", "[v * 10 for v in V]"),
  ("vector_sub", "₀-", "inc", "[v - 10 for v in V]"),
